@@ -5,6 +5,17 @@ use crate::query::Query;
 
 impl Query for Segment {
     fn process<'a, T: Queryable>(&self, step: State<'a, T>) -> State<'a, T> {
+        #[cfg(feature = "verif-hooks")]
+        if crate::verif::armed() {
+            let input = crate::verif::nodes(&step);
+            let out = crate::verif::reenter(|| self.process(step));
+            crate::verif::emit(crate::verif::Event::Segment {
+                text: format!("{:?}", self),
+                input,
+                output: crate::verif::nodes(&out),
+            });
+            return out;
+        }
         match self {
             Segment::Descendant(segment) => segment.process(step.flat_map(process_descendant)),
             Segment::Selector(selector) => selector.process(step),
